@@ -48,6 +48,10 @@ pub struct TrainCase {
     /// build through the `..._and_parts` sibling constructors
     #[serde(default)]
     pub and_parts: bool,
+    /// the train does not start with its tail at the beginning of the path but this much
+    /// further along (initial offset = train length + this), 0 = the builder's default
+    #[serde(default)]
+    pub init_offset_extra: f64,
 }
 
 pub struct TrainRun {
@@ -137,7 +141,7 @@ pub fn run_case(case: &TrainCase) -> TrainRun {
     if case.mode == 0 {
         let built = (|| -> anyhow::Result<SetSpeedTrainSim> {
             let v0 = if case.init_speed_zero { None } else { case.trace.first().map(|p| p.1.max(0.0)) };
-            let tsb = case.train.build_builder_init(case.save_interval, None, v0)?;
+            let tsb = case.train.build_builder_init_at(case.save_interval, None, v0, case.init_offset_extra)?;
             let trace = SpeedTrace::new(
                 case.trace.iter().map(|x| x.0).collect(),
                 case.trace.iter().map(|x| x.1).collect(),
@@ -178,7 +182,7 @@ pub fn run_case(case: &TrainCase) -> TrainRun {
         run.offset_end = *run.link_point_offsets.last().unwrap_or(&0.0);
     } else {
         let built = (|| -> anyhow::Result<SpeedLimitTrainSim> {
-            let tsb = case.train.build_builder(case.save_interval, Some(("A", "B")))?;
+            let tsb = case.train.build_builder_init_at(case.save_interval, Some(("A", "B")), None, case.init_offset_extra)?;
             let mut lm: HashMap<String, Vec<Location>> = HashMap::new();
             lm.insert("A".into(), vec![location("A", 1)]);
             lm.insert("B".into(), vec![location("B", n as u32)]);
@@ -293,7 +297,7 @@ pub fn probe_walk_main(casefile: &str) -> i32 {
     let net: Vec<Link> = build_chain(&case.links);
     let n = case.links.len();
     let path: Vec<LinkIdx> = link_idxs(0..n);
-    let tsb = case.train.build_builder(None, Some(("A", "B"))).expect("builder");
+    let tsb = case.train.build_builder_init_at(None, Some(("A", "B")), None, case.init_offset_extra).expect("builder");
     let mut lm: HashMap<String, Vec<Location>> = HashMap::new();
     lm.insert("A".into(), vec![location("A", 1)]);
     lm.insert("B".into(), vec![location("B", n as u32)]);
@@ -605,15 +609,18 @@ pub fn gen_set_speed_case(g: &mut Gen, tier: Tier, allow_dummy: bool) -> TrainCa
             v = v_new;
             trace.push((r(t, 1), v));
         }
-        return TrainCase { links, train, mode: 0, trace, save_interval: Some(1), simulation_days: None, init_speed_zero: false, also_real_walk: false, scenario_year: None, and_parts: false };
+        return TrainCase { links, train, mode: 0, trace, save_interval: Some(1), simulation_days: None, init_speed_zero: false, also_real_walk: false, scenario_year: None, and_parts: false, init_offset_extra: 0.0 };
     }
     let o = ChainOpts { max_links: 6, len_weights: [6, 3, 1], ..Default::default() };
     let ahead = g.grid(400.0, 6000.0, 14);
     let links = gen_links_for(g, &tp, &o, tp.length + ahead, 0.0);
     let total: f64 = links.iter().map(|l| l.length).sum();
+    // 30 %: the train starts further along the path than with its tail at the beginning
+    let room = total - tp.length - 120.0;
+    let init_offset_extra = if g.bool(0.3) && room > 50.0 { r(g.f64(1.0, room * 0.7), 1) } else { 0.0 };
     // consistent inputs: the trace starts at the train's initial time and speed
-    let trace = gen_trace(g, total - tp.length - 20.0, 30.0, train.init_time, max_steps);
-    TrainCase { links, train, mode: 0, trace, save_interval: Some(1), simulation_days: None, init_speed_zero: false, also_real_walk: false, scenario_year: None, and_parts: false }
+    let trace = gen_trace(g, total - tp.length - init_offset_extra - 20.0, 30.0, train.init_time, max_steps);
+    TrainCase { links, train, mode: 0, trace, save_interval: Some(1), simulation_days: None, init_speed_zero: false, also_real_walk: false, scenario_year: None, and_parts: false, init_offset_extra }
 }
 
 // ---------------------------------------------------------------------------------------
